@@ -187,6 +187,20 @@ static void check_exact(const Universe& U, const Spec& s, const bj::object& e, s
     count("exact.size");
   }
   {
+    // find_max(k): "maximal value of lambda-level landscape"; get_y_range(): the range of level 0, which contains the others
+    Dev dv("exact.find_max", act);
+    const std::vector<long> supk = longs(e.at("sup"));
+    for (long k = 0; k < nlev && k < static_cast<long>(supk.size()); ++k) {
+      const double got = L.find_max(static_cast<unsigned>(k));
+      if (!same(got, supk[k], 8, true)) dv.add("k=" + std::to_string(k), supk[k], jnum(got * 8));
+    }
+    if (nlev > 0 && !supk.empty()) {
+      const auto yr = L.get_y_range();
+      if (!same(yr.first, 0, 8, true) || !same(yr.second, supk[0], 8, true)) dv.add("y_range", supk[0], jnum(yr.second * 8));
+    }
+    count("exact.find_max", nlev);
+  }
+  {
     // vectorize(k): "a vector of doubles based on a landscape": the values of the level at an increasing sequence of
     // abscissae that contains its breakpoints.  Checked: the specified breakpoint values are a subsequence of it and
     // it is a subsequence of the values on the quarter lattice (which starts and ends with zeros).
